@@ -1,7 +1,8 @@
 """C16 - swizzle getters and with_ setters permute exactly the lanes their names spell.
 
 R-COPY: for every method of every impl of Vec2Swizzles / Vec3Swizzles / Vec4Swizzles (enumerated from
-the trait impls rustc resolved), each visible output lane is the bare input atom named by the letter."""
+the trait impls rustc resolved), each visible output lane is the bare input atom named by the letter; the identity swizzles xy / xyz / xyzw the traits provide as default
+methods (generic bodies, inherited by every impl) must return self."""
 import re
 import terms as tm
 from common import vec_info, atom_at, cell_term, tydef, TRUSTED_COMMON
